@@ -22,6 +22,7 @@ import (
 )
 
 type cfg struct {
+	Foreign bool // the cache holds an object of another type at readiness (typed monitors must skip it, not give up)
 	Typed   bool
 	K       int    // events published
 	CloseAt int    // -1: never; k: the closer acts after k events have been published (0 = before the first); 99 = before the parent is ready
@@ -34,6 +35,9 @@ func (c cfg) name() string {
 	t := "untyped"
 	if c.Typed {
 		t = "typed"
+	}
+	if c.Foreign {
+		t += "+foreign"
 	}
 	return fmt.Sprintf("c16/%s/K%d/close=%s@%d/%s%d", t, c.K, c.Closer, c.CloseAt, c.Mode, c.Bound)
 }
@@ -78,6 +82,9 @@ func (in *inst) run() {
 	c := in.c
 	in.root = hx.NewRoot(filter.Null())
 	in.initial = []metav1.Object{hx.Pod("ns", "a", "1", "l=1")}
+	if c.Foreign {
+		in.initial = append(in.initial, &corev1.Service{ObjectMeta: metav1.ObjectMeta{Namespace: "ns", Name: "foreign", ResourceVersion: "1"}})
+	}
 	var mon kcache.Monitor
 	var err error
 	if c.Typed {
@@ -195,6 +202,16 @@ func (in *inst) check(r *vs.Result) []string {
 		var cands []string
 		for k := 0; k <= len(pub); k++ {
 			content, _ := hx.Mirror(in.initial, pub[:k])
+			if c.Typed {
+				// a typed monitor sees the content restricted to its type
+				var keep []string
+				for _, o := range strings.Fields(strings.Trim(content, "[]")) {
+					if !strings.HasPrefix(o, "ns/foreign@") {
+						keep = append(keep, o)
+					}
+				}
+				content = "[" + strings.Join(keep, " ") + "]"
+			}
 			cands = append(cands, content)
 			if content == arg {
 				ok = true
@@ -260,6 +277,7 @@ func Property() runner.Property {
 					}
 				}
 				out = append(out, scenario(cfg{Typed: typed, K: 3, CloseAt: -1, Closer: "none", Mode: "S2", Bound: 3}))
+				out = append(out, scenario(cfg{Typed: typed, Foreign: true, K: 2, CloseAt: -1, Closer: "none", Mode: "S2", Bound: 3}))
 			}
 			if tier == "thorough" {
 				for _, typed := range []bool{false, true} {
